@@ -12,7 +12,6 @@ import (
 	"runtime"
 	"strconv"
 	"strings"
-	"time"
 
 	"crypto/elliptic"
 
@@ -1002,7 +1001,6 @@ func main() {
 		Exec:    exec,
 		Corpus:  corpus(),
 		Isolate: true,
-		Timeout: 5 * time.Second, // a case takes well under a millisecond; a decoder that loops on a hostile count is an observation
 		N:       map[string]int{"quick": 12000, "thorough": 400000},
 	})
 }
